@@ -42,6 +42,7 @@ THEOREMS = [P + n for n in [
     "pushdown_dnf_common_predicate", "dnf_implies_disjunction_of_common", "pushdown_dnf_single_branch_unsound",
     "pushdown_projections_preserves", "pushdown_projections_needs_no_distinct", "projection_guards_present",
     "append_cte_keeps_scoping", "eliminate_subqueries_forward_reference_witness",
+    "setop_prune_by_position_preserves", "setop_prune_by_name_counterexample", "setop_right_operand_by_ordinal",
     "conj3_eq_of_same_values", "uniq_sort_sound_of_key_injective", "uniq_sort_key_collision_witness", "gen_handlers_cover_all_args",
     "rename_with_fresh_cache_renames_all", "rename_all_leaves_no_old", "rename_with_stale_cache_witness",
     "merge_cache_clears_present",
@@ -290,6 +291,16 @@ def translate(chk: Check) -> str:
                         changed(f"unknown disjunct in pushdown_projections' keep-all guard: {c}")
     if not found_pj:
         changed("pushdown_projections: keep-all guard not found")
+    # the right operand of a set operation gets the parent's referenced columns BY ORDINAL
+    by_ordinal = False
+    if ppj is not None:
+        for n in ast.walk(ppj):
+            if isinstance(n, ast.Assign) and ast.unparse(n.targets[0]) == "referenced_columns[right]" and isinstance(n.value, ast.SetComp):
+                by_ordinal = ast.unparse(n.value) == "{re.selects[i].alias_or_name for i, select in enumerate(le.selects) if select.alias_or_name in parent_selections}"
+        assigns = [ast.unparse(n.value) for n in ast.walk(ppj) if isinstance(n, ast.Assign) and ast.unparse(n.targets[0]) == "referenced_columns[right]"]
+        # exactly: the by_name branch (parent_selections as is) and the ordinal comprehension
+        if sorted(assigns) != sorted(["parent_selections", "parent_selections", "{re.selects[i].alias_or_name for i, select in enumerate(le.selects) if select.alias_or_name in parent_selections}"]):
+            by_ordinal = False
 
     # merge_subqueries: which cache invalidation follows the in-place merge of a CTE / derived table
     cache_clears = []
@@ -393,6 +404,7 @@ def translate(chk: Check) -> str:
         "def singleRowGuards : List SingleRowAtom := " + lst(single_row),
         f"def reorderRequiresNoSide : Bool := {b(reorder)}",
         "def projKeepAll : List ProjAtom := " + lst(proj_atoms),
+        f"def setOpRightByOrdinal : Bool := {b(by_ordinal)}",
         "def mergeCacheClears : List (String × String) := " + lst('("%s", "%s")' % c for c in cache_clears),
         "def genHandlerMissing : List (String × List String) := " + lst('("%s", %s)' % (k_, lst('"%s"' % a for a in m_)) for k_, m_ in gen_missing),
         "end SqlglotModel.Generated.C03",
@@ -806,6 +818,24 @@ def norm(rows):
     return out
 
 
+def second_opinion(sql, out, db, total):
+    """DuckDB itself is not infallible (seen: a WHERE pushed below ORDER BY … LIMIT of a derived table under a RIGHT JOIN):
+    when DuckDB reports a row difference, run both texts on SQLite 3.40 as well; if SQLite accepts both and finds them
+    EQUAL the difference is an engine artefact, not a property violation.  Returns True = artefact."""
+    import sqlite3
+
+    try:
+        con = sqlite3.connect(":memory:")
+        for t, rows in db.items():
+            con.execute(f"CREATE TABLE {t} (a INT, b INT)")
+            con.executemany(f"INSERT INTO {t} VALUES (?, ?)", [tuple(r) for r in rows])
+        a = norm([tuple(r) for r in con.execute(sql).fetchall()])
+        b = norm([tuple(r) for r in con.execute(out).fetchall()])
+    except Exception:  # noqa
+        return False
+    return (a == b) if total else (bagkey(a) == bagkey(b))
+
+
 def rule_fns():
     from sqlglot.optimizer.optimizer import RULES
 
@@ -996,7 +1026,10 @@ class QGen:
             return f"SELECT {base}.a AS a, {other}.b AS b FROM {base} JOIN {other} ON {base}.a = {other}.a{w}"
         if k < 0.92:
             other = r.choice("xyz")
-            return f"SELECT {base}.a AS a, {base}.b AS b FROM {base}{w} {r.choice(['UNION', 'UNION ALL', 'EXCEPT', 'INTERSECT'])} SELECT {other}.a, {other}.b FROM {other}"
+            op = r.choice(['UNION', 'UNION ALL', 'UNION ALL', 'EXCEPT', 'INTERSECT'])
+            right = r.choice([f"{other}.a, {other}.b", f"{other}.b, {other}.a", f"{other}.b AS b, {other}.a AS a", f"{other}.a AS b, {other}.b AS a",
+                              f"{other}.b AS a, {other}.a AS b"])
+            return f"SELECT {base}.a AS a, {base}.b AS b FROM {base}{w} {op} SELECT {right} FROM {other}"
         return f"SELECT {r.choice([1, 2])} AS a, {base}.b AS b FROM {base}{w}"
 
     def query(self):
@@ -1163,6 +1196,11 @@ WITNESSES = [
     ("SELECT p.a AS pa FROM (SELECT x.a AS a, x.b AS b FROM x UNION ALL (SELECT y.a, y.b FROM y UNION SELECT z.a, z.b FROM z)) AS p", {"x": [[1, 1]], "y": [[1, 1], [2, 5]], "z": [[2, 5]]}),
     ("SELECT p.a AS pa FROM (SELECT x.a AS a, x.b AS b FROM x) AS p CROSS JOIN y WHERE (y.b * p.a) IS NULL OR p.a BETWEEN 0 AND 0", {"x": [[None, 7], [1, 1]], "y": [[1, 1]], "z": []}),
     ("WITH c1 AS (SELECT z.a AS a, z.b AS b FROM z UNION ALL SELECT x.a, x.b FROM x) SELECT p.b AS c1 FROM x AS p LEFT JOIN c1 AS q ON p.b = q.b", {"x": [[3, 4]], "y": [], "z": [[1, 4]]}),
+    # set operations match columns by POSITION: right operand with the same names in another order / swapped aliases
+    ("SELECT t.a AS ta FROM (SELECT x.a, x.b FROM x UNION ALL SELECT y.b, y.a FROM y) AS t", {"x": [[1, 2]], "y": [[3, 4]], "z": []}),
+    ("SELECT t.b AS tb FROM (SELECT x.a, x.b FROM x UNION ALL SELECT y.b, y.a FROM y) AS t", {"x": [[1, 2]], "y": [[3, 4]], "z": []}),
+    ("SELECT t.a AS ta FROM (SELECT x.a AS a, x.b AS b FROM x UNION ALL SELECT y.a AS b, y.b AS a FROM y) AS t", {"x": [[1, 2]], "y": [[3, 4]], "z": []}),
+    ("WITH t AS (SELECT x.a AS a, x.b AS b FROM x UNION SELECT y.b AS b, y.a AS a FROM y) SELECT t.b AS tb FROM t", {"x": [[1, 2]], "y": [[3, 4], [3, 5]], "z": []}),
     # several subquery predicates with one left operand (uniq_sort must not merge them)
     ("SELECT x.a AS xa FROM x WHERE x.a NOT IN (SELECT y.a FROM y WHERE y.a IS NOT NULL) AND x.a NOT IN (SELECT z.a FROM z WHERE z.a IS NOT NULL)", {"x": [[1, 1], [2, 2], [3, 3]], "y": [[1, 1]], "z": [[2, 2]]}),
     ("SELECT x.a AS xa FROM x WHERE x.a IN (SELECT y.a FROM y) AND x.a IN (SELECT z.a FROM z)", {"x": [[1, 1], [2, 2], [3, 3]], "y": [[1, 1], [2, 1]], "z": [[2, 2], [3, 3]]}),
@@ -1348,6 +1386,14 @@ def search(chk: Check, hints: list, budget_s: float) -> None:
             res, oc = oracle(duck, sql, total, rules, label)
             outcomes[oc] = outcomes.get(oc, 0) + 1
             chk.count(f"search:{label.split(':')[0] if ':' in label else (label if not label.startswith('prefix') else 'prefix')}:{oc}")
+            if res and oc == "diff":
+                try:
+                    if second_opinion(sql, optimized_sql(sql, rules), db, total):
+                        outcomes["engine-artefact"] = outcomes.get("engine-artefact", 0) + 1
+                        chk.count("search:engine-artefact")
+                        continue
+                except Exception:  # noqa
+                    pass
             if res:
                 found += 1
                 sql2, db2 = shrink(duck, sql, total, rules, label, db)
